@@ -138,6 +138,25 @@ def cases(tier: str, rng: random.Random) -> List[Case]:
                 c2 = std_case(v, c1.obs[1], m, tag="a:instances-refed")
                 c2.first_input = x
                 out.append(c2)
+    # every text of the parse pool (midnight timestamps, texts around byte order marks, ...) through the text-reading
+    # scalars and the stripping string validator - bare and as list items: whatever is accepted is accepted again
+    texts_ = list(G.PARSE_STRS) + [G.S(t_) for t_ in ("\ufeff name", "name \ufeff", "\ufeff  x  \ufeff", " \ufeffy", "z\ufeff ")]
+    tvs = [("Scalar", (k_,), Some((G.DEFAULT_CO[k_],)), [], [], []) for k_ in ("KDecimal", "KUuid", "KDate", "KDatetime")] + \
+          [("Scalar", ("KStr",), None, [("Strip",)], [], []), ("Scalar", ("KStr",), None, [("Strip",), ("Upper",)], [("PNotBlank",)], [])]
+    for v in tvs:
+        for x in texts_:
+            for vv, xx in ((v, x), (("ListV", v, [], [], None), ("VList", [x]))):
+                m = "sync" if (len(out) % 2) else "async"
+                c1 = std_case(vv, xx, m, tag="a:texts")
+                try:
+                    observe(c1)
+                except HarnessError:
+                    continue
+                out.append(c1)
+                if c1.obs and c1.obs[0] == "OValid":
+                    c2 = std_case(vv, c1.obs[1], m, tag="a:texts-refed")
+                    c2.first_input = xx
+                    out.append(c2)
     # uniqueness over rows that come in as lists of mappings and go out as tuples of mappings, and over records that
     # are rebuilt in schema order
     ROW = ("NTupleV", [("IsDictV",), INT_], None, Some(("CoTupleOrList",)))
